@@ -133,6 +133,8 @@ def check(ctx):
             "let u = /base/{ 'k int }; res (concat u (/tail/{ 'j str })) on put -> <>;\n",
             "let self_link = /nodes/{ 'id! int } on get -> <{ 'self self_link }>;\nlet @node = { 'name str, 'parent self_link };\nres self_link;\nres /roots on get -> <[@node]>;\n",
             "let @a = { 'p (rec x num) };\nlet @b = { 'q @a, 'r (rec y uri) };\nres /r on get -> <@b> :: <status=404, (rec z bool)>;\n",
+            # paths that differ by an empty segment only are different paths with different derived operationIds
+            "res /items on get -> { 'count int };\nres /items/ on get -> { 'first str };\nres / on get -> {};\n",
             # user-chosen map keys spelling "$ref": their values are objects, not references
             "let @a = { '$ref str, 'n [@a] };\nres /x on get : { '$ref int } -> <headers={ '$ref str }, media=\"$ref\", @a>;\n",
         ]
@@ -151,6 +153,8 @@ def check(ctx):
         ctx.cov["evaluations"] += 1
         if r.get("status") != "ok":
             ctx.count("not_emitted_" + r.get("status", "?") + "_" + r.get("phase", ""))
+            if "corpus" in (p.get("features") or []) and r.get("status") == "error" and not ctx.replay:
+                ctx.broken.append("a corpus program of the check is rejected: %s: %s" % (str(r.get("msg"))[:120], p["mods"][p["main"]][:200]))
             continue
         validate(ctx, p, r)
         doc = r["doc"]
